@@ -35,7 +35,7 @@ def mutating_effects(es: Set[str]) -> Set[str]:
     return {e for e in es if e.startswith(READ_FORBIDDEN_PREFIX)}
 
 
-@rule("C15.R1", ["C15", "C06", "C01"], min_instances=25, design="3.15")
+@rule("C15.R1", ["C15", "C06", "C01", "C07"], min_instances=25, design="3.15")
 def read_apis_effect_free(ctx):
     """Public methods that are not write/append operations have no mutating file or memory effect."""
     csv = csv_cls(ctx)
@@ -68,7 +68,9 @@ def read_apis_effect_free(ctx):
                 ch = per[csv].get(e) or per[mem].get(e)
                 msg = f"read API has effect {sorted(mut)[:4]} via {chain_str(ch)}"
             stor = any(e.startswith(("MEM.", "PRIMARY.write", "PRIMARY.truncate", "FS.")) for e in mut)
-            yield Ob("C15.R1", ["C15"] + (["C06", "C01"] if stor else []), f"{m.qual} | read API effect set", not mut, msg, m.loc(),
+            is_read = "read_op" in decos or (cls == "Measurement" and not m.name.startswith(("insert", "remove", "update", "drop")))
+            yield Ob("C15.R1", ["C15"] + (["C06", "C01"] if stor else []) + (["C07"] if stor and is_read else []),
+                     f"{m.qual} | read API effect set", not mut, msg, m.loc(),
                      {"effects": sorted(e for e in allfx if not e.startswith(("INDEX.", "USER.", "STORED.", "RAISE")))})
 
 
